@@ -102,6 +102,19 @@ def run(ctx):
     wr = [(b_.name, st["span"]) for b_, blk, st in F.field_writes(lambda f, b_, st: f in ("process_id", "secret_key") and "client::Client" in b_.name)]
     r2.check(not wr, "client-key-immutable", "Client.process_id / secret_key are never reassigned", "Client key reassigned at %s" % wr)
 
+
+    # the object that serves a CancelRequest carries the *target's* key: it must not remove the target's entry when it goes away,
+    # or the next CancelRequest for the same running query finds nothing
+    drp = ctx.body(DROP, r2)
+    if drp:
+        dsw = switches(drp)
+        Tc, Fc = field_bool_edges(drp, "cancel_mode", dsw)
+        rms = [c.block for c in drp.calls("re:HashMap::.*remove$") if "client_server_map" in {p_[1:] for o in origins(drp, c.args[0], taint=True) if o.kind in ("place", "param") for p_ in o.proj if p_.startswith(".")}
+               or any(o.kind == "call" and o.call.name.endswith("::lock") for o in origins(drp, c.args[0]))]
+        w = drp.uncrossed_path([0], rms, edges=set(Fc)) if rms else None
+        r2.check(bool(rms) and bool(Fc) and w is None, "cancel-object-keeps-target-entry", "Drop for Client removes the map entry only when the object is not a cancel-request object (cancel_mode == false)",
+                 "Drop for Client removes (process_id, secret_key) from the cancel map for every object, also for the throw-away object of a CancelRequest - whose key is the target client's: after one cancel request the target's entry is gone "
+                 "although it still holds its server, and a second CancelRequest for the same query is ignored", "", w and drp.describe_path(w))
     # ---------------- R3
     r3 = ctx.rule("C10-R3", "the mapping is removed before the connection goes back to the pool: every path from the checkout back to the idle loop passes Client::release; other exits return (Drop removes the entry)", floor=2)
     if h:
@@ -134,8 +147,10 @@ def run(ctx):
             if b_:
                 rmv_ = [c.block for c in calls if c.body is b_ and c.name.endswith("::remove")]
                 rets_ = [bb for bb, blk in enumerate(b_.blocks) if blk["term"]["k"] == "return"]
-                wit_ = b_.uncrossed_path([0], rets_, blocks=rmv_)
-                r3.check(bool(rmv_) and wit_ is None, "unconditional-remove:" + nm, "%s removes the entry on every path" % nm,
+                # the only legitimate way round the removal: the object serves a CancelRequest (its key is the target's, D27)
+                cmT = set(field_bool_edges(b_, "cancel_mode", switches(b_))[0])
+                wit_ = b_.uncrossed_path([0], rets_, blocks=rmv_, edges=cmT)
+                r3.check(bool(rmv_) and wit_ is None, "unconditional-remove:" + nm, "%s removes the entry on every path (of a client that is not a cancel-request object)" % nm,
                          "%s can return without removing the client's entry (a condition guards the removal): after the transaction ends the client's key still maps to the server it used" % nm, "", wit_ and b_.describe_path(wit_))
             if not b_:
                 continue
